@@ -21,7 +21,7 @@ from concurrent.futures import ProcessPoolExecutor
 REPO = os.environ.get("VERIF_REPO", "/repo")
 VERIF = os.path.dirname(os.path.dirname(os.path.abspath(__file__)))
 CACHE = os.path.join(VERIF, ".cache")
-FRONTEND_VERSION = "8"
+FRONTEND_VERSION = "9"
 
 BASE_FLAGS = ["-std=c17", "-D_POSIX_C_SOURCE=200809L"]
 CONFIGS = {
@@ -183,6 +183,8 @@ class _Loader:
             if "kind" not in out:
                 out["kind"] = "Null"
             out["id"] = n.get("id")
+            if isinstance(out.get("argType"), dict):
+                out["argType"] = out["argType"].get("qualType")
             t = n.get("type")
             if t:
                 out["type"] = t.get("qualType")
